@@ -427,6 +427,11 @@ def one_project(args):
     proj.write_sources(base)
     srcs = [s["path"] for s in proj.sources]
     runs = []
+    if not srcs:
+        # no usable component (every one of them is part of an inheritance cycle): nothing to invoke the tool on
+        files = proj.files(base)
+        shutil.rmtree(base, ignore_errors=True)
+        return proj, lowercase, [], {}, None, files
     orders = [list(srcs)]
     if len(srcs) > 1:
         o2 = list(reversed(srcs))
